@@ -138,6 +138,9 @@ type Entry struct {
 	// Fields maintained internally.
 	hlen         int // Length of the header.
 	valThreshold int64
+	// skipPublish is set on entries which value log GC writes back: subscribers
+	// got them when they were committed and must not get them again.
+	skipPublish bool
 }
 
 func (e *Entry) isZero() bool {
